@@ -139,10 +139,11 @@ def parse_script(text):
 
 # ------------------------------------------------------------------ word values
 class Sym:
-    "A symbolic string operand (flag argument)."
-    def __init__(self, name):
+    "A symbolic string operand (flag argument); `relative`: a path relative to the caller's working directory."
+    def __init__(self, name, relative=False):
         self.name = name
         self.z = z3.String(name)
+        self.relative = relative
 
     def __repr__(self):
         return f"<{self.name}>"
@@ -285,6 +286,9 @@ class Engine:
         v = norm(v)
         c = conc(v)
         if c is None:
+            if v and isinstance(v[0], Sym) and v[0].relative:
+                # a relative symbolic operand used as a path: resolved against the CURRENT directory of the script, as bash does
+                return norm((p.cwd.rstrip("/") + "/",) + tuple(v))
             # symbolic operand: assumed absolute and outside the package / work directories
             self.assumptions.add("symbolic -d/-o operands are absolute paths outside the package and working directories, without IFS whitespace or glob characters")
             return v
@@ -447,7 +451,11 @@ class Engine:
         elif len(t) == 3 and t[1] in ("=", "==", "!="):
             lft = self.expand(p, t[0])
             r = t[2]
-            if r.endswith("*") and c.startswith("[["):
+            if r.startswith("*") and r.endswith("*") and len(r) > 2 and c.startswith("[["):
+                mid = self.expand(p, r[1:-1])
+                lc, mc = conc(lft), conc(mid)
+                b = z3.BoolVal(mc in lc) if lc is not None and mc is not None else z3.Contains(zstr(lft), zstr(mid))
+            elif r.endswith("*") and c.startswith("[["):
                 pre = self.expand(p, r[:-1])
                 lc, pc_ = conc(lft), conc(pre)
                 b = z3.BoolVal(lc.startswith(pc_)) if lc is not None and pc_ is not None else z3.PrefixOf(zstr(pre), zstr(lft))
@@ -968,6 +976,15 @@ def run_history(script_text, backend, history, cvsroot_set=None, budget_s=None):
     if budget_s is not None:
         import time as _t
         e.deadline = _t.time() + budget_s
+    for toks in history:
+        for tk in toks:
+            for part in (tk[2] or ()) if tk[0] == "flag" else ():
+                if isinstance(part, Sym):
+                    if part.relative:
+                        e.solver.add(z3.Length(part.z) >= 1, z3.Not(z3.PrefixOf(z3.StringVal("/"), part.z)), z3.Not(z3.Contains(part.z, z3.StringVal(":"))),
+                                     z3.Not(z3.PrefixOf(z3.StringVal("."), part.z)))
+                    else:
+                        e.solver.add(z3.PrefixOf(z3.StringVal("/"), part.z))
     p0 = Path()
     paths = [p0]
     for inv, toks in enumerate(history):
